@@ -242,7 +242,8 @@ static int random_pool(pval* pool, int k) {
   int n = 0;
   while (n < k) {
     pval p; unsigned t = rnd(100);
-    if (t < 35) pv_int(&p, rnd_in(-3, 4));
+    if (t < 3) { static const long edge[] = { LONG_MAX, LONG_MAX - 1, LONG_MIN + 1, LONG_MIN + 2, LONG_MAX / 2 + 1 }; pv_int(&p, edge[rnd(5)]); }   /* counts at the limit of long */
+    else if (t < 35) pv_int(&p, rnd_in(-3, 4));
     else if (t < 55) pv_rat(&p, rnd_in(-9, 12), 1 + rnd(4));
     else if (t < 70) pv_dy(&p, rnd_in(-9, 12), rnd(3));
     else {
